@@ -66,12 +66,15 @@ class Gen:
         rng = self.rng
         r = rng.random()
         pre = "" if first else "el"
+        # what may follow a macro name on a directive line without being part of it
+        tail = rng.choice(["", "", "", "\t", " \t ", "\t/* c */", " // c", "\t// c", " \\\n", "\t\\\n\t", "  ", " /* c */\t"])
+        sep = rng.choice([" ", " ", "\t", "  ", " \t"])
         if r < 0.25:
             m = rng.choice(MACROS)
-            return "#%sifdef %s" % (pre, m) if first else "#elifdef %s" % m, ("ifdef %s" if first else "elifdef %s") % m
+            return ("#ifdef%s%s%s" if first else "#elifdef%s%s%s") % (sep, m, tail), ("ifdef %s" if first else "elifdef %s") % m
         if r < 0.45:
             m = rng.choice(MACROS)
-            return ("#ifndef %s" if first else "#elifndef %s") % m, ("ifndef %s" if first else "elifndef %s") % m
+            return ("#ifndef%s%s%s" if first else "#elifndef%s%s%s") % (sep, m, tail), ("ifndef %s" if first else "elifndef %s") % m
         t, s = self.cexpr(rng.choice([0, 1, 2]))
         return ("#if %s" if first else "#elif %s") % t, ("if %s" if first else "elif %s") % s
 
@@ -102,7 +105,7 @@ class Gen:
                 budget[0] -= 1
             elif r < 0.59:
                 m = rng.choice(MACROS)
-                lines.append("#undef %s" % m)
+                lines.append("#undef %s%s" % (m, rng.choice(["", "", "\t", " \t", "\t// c", " /* c */"])))
                 dirs.append("undef %s" % m)
                 budget[0] -= 1
             elif r < 0.64:
